@@ -478,6 +478,11 @@ pub fn run_batch(scens: &[&'static Scenario], opts: &BatchOpts) -> BatchResult {
                         write_minimal_evidence(opts, scen, t_start, 0);
                         std::process::exit(0);
                     }
+                    if std::env::var("VERIF_HANG_PAUSE").is_ok() {
+                        // debugging aid: leave the stuck process around for a debugger
+                        eprintln!("HANG detected in pid {}; pausing", std::process::id());
+                        std::thread::sleep(Duration::from_secs(600));
+                    }
                     println!("run {i} seed {seed}: HANG in scenario {}", scen.name);
                     println!("VIOLATION property={} replay={}", scen.id, path);
                     write_minimal_evidence(opts, scen, t_start, 1);
